@@ -66,6 +66,8 @@ def findings(repo, prog):
         _g5(f, out)
         _g6(f, out)
         _g7(f, out)
+        _g7b(f, out)
+        _g7c(f, out)
         _g9(f, out)
         _g10(f, out)
         _g11(f, out)
@@ -734,6 +736,113 @@ def _g7(f, out):
                            'list is long enough (facts here: %s): IndexError when it is shorter '
                            '(e.g. a macro taken as a single-token argument has no arguments)'
                            % (base, k, [('' if p else 'not ') + short(t, 40) for t, p in facts][-3:]),
+                           '%s: %s' % (f.qual, unparse(x))))
+
+
+def shrinking_loops(fnode):
+    """`while <test reading X[k]>:` whose body removes elements of X (pop / remove / del / re-slicing) and whose test
+    does not first establish that X is non-empty: when every element passes the test the list runs empty and the
+    test itself raises IndexError.  Yields (subscript, list name, loop)."""
+    for lp in [l for l in walk_fn(fnode) if isinstance(l, ast.While)]:
+        for x in ast.walk(lp.test):
+            if not (isinstance(x, ast.Subscript) and isinstance(x.value, ast.Name) and isinstance(x.ctx, ast.Load)):
+                continue
+            idx = x.slice
+            if isinstance(idx, ast.UnaryOp) and isinstance(idx.op, ast.USub):
+                idx = idx.operand
+            if not (isinstance(idx, ast.Constant) and isinstance(idx.value, int)):
+                continue
+            nm = x.value.id
+            shrinks = False
+            for st in lp.body:
+                for n in ast.walk(st):
+                    if isinstance(n, ast.Call) and isinstance(n.func, ast.Attribute) and isinstance(n.func.value, ast.Name) \
+                            and n.func.value.id == nm and n.func.attr in ('pop', 'remove', 'popleft', 'clear'):
+                        shrinks = True
+                    elif isinstance(n, ast.Delete) and any(isinstance(t, ast.Subscript) and isinstance(t.value, ast.Name)
+                                                           and t.value.id == nm for t in n.targets):
+                        shrinks = True
+                    elif isinstance(n, ast.Assign) and any(isinstance(t, ast.Name) and t.id == nm for t in n.targets) and \
+                            isinstance(n.value, ast.Subscript) and isinstance(n.value.slice, ast.Slice) and \
+                            isinstance(n.value.value, ast.Name) and n.value.value.id == nm:
+                        shrinks = True
+            if not shrinks:
+                continue
+            facts = [(unparse(a), p) for t, pol in short_circuit_facts(x) for a, p in _atoms_of(t, pol)]
+            k = idx.value
+            ok = any(p and (t == nm or t == 'len(%s)' % nm or re.match(r'len\(%s\) (>|>=|!=) \d+$' % re.escape(nm), t))
+                     for t, p in facts) or any((not p) and t in ('not %s' % nm, 'len(%s) == 0' % nm) for t, p in facts)
+            if not ok:
+                yield x, nm, lp
+
+
+def _atoms_of(t, pol):
+    from . import symex
+    return symex._atoms(t, pol)
+
+
+def _g7b(f, out):
+    if not isinstance(f.node, (ast.FunctionDef, ast.AsyncFunctionDef)):
+        return
+    for x, nm, lp in shrinking_loops(f.node):
+        out.append(Finding('G7', 'REFUTED', f.mod, lp, f.key,
+                           'the loop at line %d removes elements of %s and reads %s in its own condition without first '
+                           'testing that %s is non-empty: when every element passes the test (an empty or all-blank block, '
+                           'e.g. the body of an empty display formula) the list runs empty and the condition raises IndexError'
+                           % (lp.lineno, nm, unparse(x), nm), '%s: while %s shrinks %s' % (f.qual, short(lp.test, 40), nm)))
+
+
+def _g7c(f, out):
+    """`X[k]` on a local bound to an attribute that the module initialises with an empty list (a stack kept on another
+    object, fetched with getattr(o, 'A', None) or o.A): `X is not None` says nothing about its length"""
+    if not isinstance(f.node, (ast.FunctionDef, ast.AsyncFunctionDef)):
+        return
+    empties = None
+    for x in walk_fn(f.node):
+        if not (isinstance(x, ast.Subscript) and isinstance(x.value, ast.Name)):
+            continue
+        idx = x.slice
+        k = None
+        if isinstance(idx, ast.Constant) and isinstance(idx.value, int) and not isinstance(idx.value, bool):
+            k = idx.value
+        elif isinstance(idx, ast.UnaryOp) and isinstance(idx.op, ast.USub) and isinstance(idx.operand, ast.Constant) \
+                and isinstance(idx.operand.value, int):
+            k = -idx.operand.value
+        if k is None or LISTY.search(x.value.id):
+            continue
+        nm = x.value.id
+        attrs = set()
+        for a in walk_fn(f.node):
+            if isinstance(a, ast.Assign) and any(isinstance(t, ast.Name) and t.id == nm for t in a.targets):
+                v = a.value
+                if isinstance(v, ast.Call) and isinstance(v.func, ast.Name) and v.func.id == 'getattr' and len(v.args) >= 2 \
+                        and isinstance(v.args[1], ast.Constant) and isinstance(v.args[1].value, str):
+                    attrs.add(v.args[1].value)
+                elif isinstance(v, ast.Attribute):
+                    attrs.add(v.attr)
+                for t in a.targets:
+                    if isinstance(t, ast.Attribute):
+                        attrs.add(t.attr)
+        if not attrs:
+            continue
+        if empties is None:
+            empties = set()
+            for a in ast.walk(f.mod.tree):
+                if isinstance(a, ast.Assign) and ((isinstance(a.value, ast.List) and not a.value.elts) or (
+                        isinstance(a.value, ast.Call) and isinstance(a.value.func, ast.Name) and a.value.func.id == 'list'
+                        and not a.value.args)):
+                    empties |= {t.attr for t in a.targets if isinstance(t, ast.Attribute)}
+        hit = sorted(attrs & empties)
+        if not hit:
+            continue
+        facts = atomic_facts(x)
+        if _len_fact_ok(facts, nm, k) or _len_fact_on_paths(f.node, x, k):
+            continue
+        out.append(Finding('G7', 'REFUTED', f.mod, enclosing_stmt(x) or x, f.key,
+                           '%s is the list kept in .%s, which starts out (and ends up, once everything pushed was popped) '
+                           'empty; %s is read with no test that it is non-empty (facts here: %s -- `is not None` does not '
+                           'make it non-empty): IndexError' % (nm, hit[0], unparse(x),
+                                                               [('' if p else 'not ') + short(t, 40) for t, p in facts][-3:]),
                            '%s: %s' % (f.qual, unparse(x))))
 
 
@@ -1491,3 +1600,112 @@ def swapped_arguments(mod):
                     # the displaced parameter's name is passed elsewhere positionally too
                     yield c, callee.name, i, j, a.id
                     break
+
+
+# --------------------------------------------------------------------------- G19
+
+IMMEDIATE_CONSUMERS = {'sorted', 'min', 'max', 'any', 'all', 'sum', 'next', 'sort', 'sub', 'subn', 'join', 'tuple', 'list',
+                       'set', 'frozenset', 'dict', 'map', 'filter'}
+
+
+def late_binding_closures(fnode):
+    """a lambda / nested def created in a loop body reads a name that the loop re-binds on every iteration (not frozen
+    as a default value), and the function object outlives the iteration: it is stored in a container, an attribute,
+    or wrapped by a call whose result is.  When it is finally called the name denotes the value of the *last*
+    iteration.  Yields (closure node, name, loop, escaping statement)."""
+    if not isinstance(fnode, (ast.FunctionDef, ast.AsyncFunctionDef)):
+        return
+    for lp in [l for l in walk_fn(fnode) if isinstance(l, (ast.For, ast.While))]:
+        rebound = set()
+        if isinstance(lp, ast.For):
+            rebound |= {n.id for n in ast.walk(lp.target) if isinstance(n, ast.Name)}
+        own = []
+        stack = list(lp.body)
+        while stack:
+            n = stack.pop()
+            own.append(n)
+            if isinstance(n, (ast.FunctionDef, ast.AsyncFunctionDef, ast.Lambda, ast.ClassDef)):
+                continue
+            stack.extend(ast.iter_child_nodes(n))
+        for n in own:
+            if isinstance(n, ast.Name) and isinstance(n.ctx, ast.Store):
+                rebound.add(n.id)
+        for cl in [n for n in own if isinstance(n, (ast.Lambda, ast.FunctionDef))]:
+            a = cl.args
+            bound = {x.arg for x in a.args + a.kwonlyargs + getattr(a, 'posonlyargs', [])}
+            if a.vararg:
+                bound.add(a.vararg.arg)
+            if a.kwarg:
+                bound.add(a.kwarg.arg)
+            body = [cl.body] if isinstance(cl, ast.Lambda) else cl.body
+            for st in body:
+                for x in ast.walk(st):
+                    if isinstance(x, ast.Name) and isinstance(x.ctx, ast.Store):
+                        bound.add(x.id)
+                    elif isinstance(x, (ast.Lambda, ast.FunctionDef)):
+                        bound |= {y.arg for y in x.args.args}
+                    elif isinstance(x, ast.comprehension):
+                        bound |= {y.id for y in ast.walk(x.target) if isinstance(y, ast.Name)}
+            free = {x.id for st in body for x in ast.walk(st) if isinstance(x, ast.Name) and isinstance(x.ctx, ast.Load)}
+            late = sorted((free - bound) & rebound)
+            if not late or (isinstance(cl, ast.FunctionDef) and cl.name in late and len(late) == 1):
+                continue
+            # where does the function object go?
+            aliases = set()
+            if isinstance(cl, ast.FunctionDef):
+                aliases.add(cl.name)
+            carriers = [cl]
+            st0 = enclosing_stmt(cl)
+            if isinstance(cl, ast.Lambda) and isinstance(st0, ast.Assign) and all(isinstance(t, ast.Name) for t in st0.targets) \
+                    and not _through_immediate(cl, st0):
+                aliases |= {t.id for t in st0.targets}
+            esc = None
+            for n in own:
+                cands = [n] if n is cl and isinstance(cl, ast.Lambda) else (
+                    [n] if isinstance(n, ast.Name) and n.id in aliases and isinstance(n.ctx, ast.Load)
+                    and n.lineno >= cl.lineno else [])
+                for c in cands:
+                    st = enclosing_stmt(c)
+                    if st is None or _through_immediate(c, st):
+                        continue
+                    if isinstance(st, ast.Assign) and any(isinstance(t, (ast.Subscript, ast.Attribute)) for t in st.targets):
+                        esc = st
+                    elif isinstance(st, ast.Expr) and isinstance(st.value, ast.Call) and \
+                            call_name(st.value) in ('append', 'add', 'insert', 'extend', 'setdefault', 'update', 'appendleft') \
+                            and any(c is y for arg in list(st.value.args) + [k.value for k in st.value.keywords]
+                                    for y in ast.walk(arg)):
+                        esc = st
+                    elif isinstance(st, ast.Assign) and all(isinstance(t, ast.Name) for t in st.targets) and c is not st.value:
+                        # wrapped (functools.partial(f, ..), Klass(callback=f)) and bound to a name: follow that name once
+                        aliases2 = {t.id for t in st.targets}
+                        for n2 in own:
+                            if isinstance(n2, ast.Name) and n2.id in aliases2 and isinstance(n2.ctx, ast.Load) and n2.lineno > st.lineno:
+                                st2 = enclosing_stmt(n2)
+                                if st2 is None or _through_immediate(n2, st2):
+                                    continue
+                                if (isinstance(st2, ast.Assign) and any(isinstance(t, (ast.Subscript, ast.Attribute)) for t in st2.targets)) or (
+                                        isinstance(st2, ast.Expr) and isinstance(st2.value, ast.Call) and
+                                        call_name(st2.value) in ('append', 'add', 'insert', 'extend', 'setdefault', 'update')):
+                                    esc = st2
+                    elif isinstance(st, ast.Expr) and isinstance(st.value, (ast.Yield,)):
+                        esc = None
+                    if esc is not None:
+                        break
+                if esc is not None:
+                    break
+            if esc is not None:
+                yield cl, late[0], lp, esc
+
+
+def _through_immediate(node, stmt):
+    """on the way from `node` up to `stmt` the value passes through a call that uses a function argument at once
+    (sorted(key=..), re.sub(.., repl), max(..)) or is itself called"""
+    child, par = node, getattr(node, '_parent', None)
+    while par is not None and child is not stmt:
+        if isinstance(par, ast.Call):
+            if par.func is child:
+                return True
+            if call_name(par) in IMMEDIATE_CONSUMERS:
+                return True
+        child, par = par, getattr(par, '_parent', None)
+    return False
